@@ -384,6 +384,11 @@ func (r *blockReader) PrecendingCharacter() rune {
 	if r.line == 0 && r.pos.Start <= firstSegment.Start {
 		return rune('\n')
 	}
+	if r.line < r.segments.Len() && r.pos.Start == r.segments.At(r.line).Start {
+		// beginning of a line: bytes in front of the segment (block quote
+		// markers, indentation of a list item) are not part of the block.
+		return rune('\n')
+	}
 	l := len(r.source)
 	i := r.pos.Start - 1
 	for ; i < l && i >= 0; i-- {
